@@ -418,6 +418,11 @@ func init() {
 			cfg.PSilence = 0
 			cfg.PPartition = 0
 			cfg.PCrash = 0
+			if r.Bool(0.5) {
+				// persistent nodes are restarted: rejections must leave no hole in what was persisted
+				mixStores(cfg, r, 0.5)
+				cfg.PCrash = 0.015
+			}
 			if thorough {
 				cfg.Steps = r.Range(80, 300)
 			} else {
